@@ -396,6 +396,45 @@ func runC16(c *Ctx) {
 			if !bytes.Equal(r1, r1c) {
 				return "type1 issuer: an earlier response changed after evaluating again"
 			}
+			// request objects: an encoding handed out by Marshal survives a later Unmarshal into the same object
+			{
+				A1 := (&type1.BasicPrivateTokenRequest{TokenKeyID: 0x11, BlindedReq: r.Bytes(49)}).Marshal()
+				B1 := (&type1.BasicPrivateTokenRequest{TokenKeyID: 0x22, BlindedReq: r.Bytes(49)}).Marshal()
+				A2 := (&type2.BasicPublicTokenRequest{TokenKeyID: 0x11, BlindedReq: r.Bytes(256)}).Marshal()
+				B2 := (&type2.BasicPublicTokenRequest{TokenKeyID: 0x22, BlindedReq: r.Bytes(256)}).Marshal()
+				A3 := (&type3.RateLimitedTokenRequest{RequestKey: r.Bytes(49), NameKeyID: r.Bytes(32), EncryptedTokenRequest: r.Bytes(40), Signature: r.Bytes(96)}).Marshal()
+				B3 := (&type3.RateLimitedTokenRequest{RequestKey: r.Bytes(49), NameKeyID: r.Bytes(32), EncryptedTokenRequest: r.Bytes(40), Signature: r.Bytes(96)}).Marshal()
+				A5 := (&type5.BatchedPrivateTokenRequest{TokenKeyID: 0x11, BlindedReq: [][]byte{r.Bytes(32), r.Bytes(32)}}).Marshal()
+				B5 := (&type5.BatchedPrivateTokenRequest{TokenKeyID: 0x22, BlindedReq: [][]byte{r.Bytes(32), r.Bytes(32)}}).Marshal()
+				AI := type3.VerifNewInnerTokenRequest(1, r.Bytes(256), r.Bytes(32)).Marshal()
+				BI := type3.VerifNewInnerTokenRequest(2, r.Bytes(256), r.Bytes(32)).Marshal()
+				type obj struct {
+					name      string
+					unmarshal func([]byte) bool
+					marshal   func() []byte
+					a, b      []byte
+				}
+				q1, q2, q3, q5, qi := &type1.BasicPrivateTokenRequest{}, &type2.BasicPublicTokenRequest{}, &type3.RateLimitedTokenRequest{}, &type5.BatchedPrivateTokenRequest{}, &type3.InnerTokenRequest{}
+				for _, o := range []obj{{"type1", q1.Unmarshal, q1.Marshal, A1, B1}, {"type2", q2.Unmarshal, q2.Marshal, A2, B2}, {"type3", q3.Unmarshal, q3.Marshal, A3, B3},
+					{"type5", q5.Unmarshal, q5.Marshal, A5, B5}, {"inner", qi.Unmarshal, qi.Marshal, AI, BI}} {
+					if !o.unmarshal(o.a) {
+						return o.name + " request: honest encoding refused"
+					}
+					first := o.marshal()
+					snap := append([]byte{}, first...)
+					inA := append([]byte{}, o.a...)
+					if !o.unmarshal(o.b) {
+						return o.name + " request: honest encoding refused"
+					}
+					second := o.marshal()
+					if !bytes.Equal(first, snap) {
+						return o.name + " request: the encoding returned by an earlier Marshal changed when the object decoded another request"
+					}
+					if !bytes.Equal(second, o.b) || !bytes.Equal(o.a, inA) {
+						return o.name + " request: wrong encoding after decoding another request, or the decoder wrote into its input"
+					}
+				}
+			}
 			_ = oprf.SuiteP384
 			return "stable"
 		})
